@@ -18,7 +18,7 @@
 From Kit.Lib Require Import Base.
 From Kit.C04 Require Import Cal Zone Str Parse Next Spec Bridge Check.
 From Kit.C04 Require Import Proofs_Local Proofs_Parse Proofs_Next Proofs_Ref Proofs_Fast Proofs_Bits.
-From Kit.C04 Require Import Proofs_Check Proofs_Denote.
+From Kit.C04 Require Import Proofs_Check Proofs_Denote Benign Proofs_Dst Proofs_Dst2.
 From Coq Require Import ZArith NArith List String.
 Import ListNotations.
 Open Scope Z_scope.
@@ -51,6 +51,46 @@ Theorem C04_next_sound_fixed : forall b off, off mod 60 = 0 -> forall t u,
   t < u /\ matches_bits b (fixed_zone off) u = true.
 Proof. exact next_sound_fixed. Qed.
 Print Assumptions C04_next_sound_fixed.
+
+(* ---------------------------------------------------------------------------------------- *)
+(* Next on BENIGN daylight-saving tables                                                     *)
+
+(* [dst_benign z] (Benign.v, decidable): the table is sorted, offsets at most a day and whole
+   minutes; every entry keeps the offset or changes it by exactly one hour at an instant that
+   is a whole hour on the wall clock, the skipped or repeated wall-clock hour lying between
+   01:00 and 23:00 of one day (so every local midnight exists exactly once); offset changes
+   are at least three days apart. Europe, North America, most of the world today.
+   POSITIVE THEOREM. On every benign table, for EVERY six bit sets and EVERY instant, Next
+   returns exactly the specification's value: the least later second that matches on the
+   wall clock of the zone - across gaps (times that do not exist are skipped) and overlaps
+   (the first of two equal wall-clock times is returned) - and the zero time exactly when
+   there is none inside the five-year window. *)
+Theorem C04_next_dst_benign : forall b z, dst_benign z = true -> forall t,
+  next_model b z t = result_of_option (next_ref (dsched_of_bits b) z t).
+Proof. exact next_dst_benign. Qed.
+Print Assumptions C04_next_dst_benign.
+
+(* ... in particular the search terminates there (it does not on tables with a skipped day:
+   C04_refuted_day_skip_hang). *)
+Theorem C04_next_terminates_benign : forall b z, dst_benign z = true -> forall t,
+  next_model b z t <> OutOfFuel.
+Proof. exact next_terminates_benign. Qed.
+Print Assumptions C04_next_terminates_benign.
+
+(* The hypothesis is satisfiable by real tables: Europe/Berlin 2023-2025 and America/New_York
+   2024-2025 as Time.ZoneBounds reports them; the zones of the known findings are excluded. *)
+Theorem C04_dst_benign_examples :
+  dst_benign berlin = true /\ dst_benign new_york = true /\
+  dst_benign lord_howe = false /\ dst_benign havana = false.
+Proof. exact (conj berlin_benign (conj new_york_benign (conj lord_howe_not_benign havana_not_benign))). Qed.
+Print Assumptions C04_dst_benign_examples.
+
+(* What a benign table means for the offset function g (u |-> offset in force at u): whole
+   minutes, at most a day, and on every interval shorter than three days g is constant or
+   makes one jump of an hour, on a whole wall-clock hour, away from midnight. *)
+Theorem C04_dst_benign_fun : forall z, dst_benign z = true -> benign_fun (offset_at z).
+Proof. exact dst_benign_fun. Qed.
+Print Assumptions C04_dst_benign_fun.
 
 (* ---------------------------------------------------------------------------------------- *)
 (* the specification's reference, every zone                                                 *)
@@ -91,10 +131,10 @@ Proof. exact next_oracle_sound_zone. Qed.
 Print Assumptions C04_next_oracle_sound.
 
 (* ---------------------------------------------------------------------------------------- *)
-(* DST zones: the property is false of the code (known findings, not fixed). Over every IANA  *)
-(* zone x transition 1970-2037 the Go code and the reference differ ONLY near transitions of  *)
-(* these six shapes; at one-hour changes on a whole wall-clock hour whose gap/overlap does    *)
-(* not contain 00:00 they agreed on all 5.6 million screened calls (harness, C04_SCREEN=1).   *)
+(* Other DST zones: the property is false of the code (known findings, not fixed). Over every
+   IANA zone x transition 1970-2037 the Go code and the reference differ ONLY near transitions
+   of these six shapes (harness, C04_SCREEN=1: 6.4 million calls); on benign tables they cannot
+   differ (C04_next_dst_benign above, for the model). *)
 
 (* Australia/Lord_Howe (30-minute shift, 2023-10-01): "15 3 * * *" from 00:00 returns 03:15 of
    2 October although 03:15 of 1 October exists. *)
